@@ -251,6 +251,55 @@ func C11(p *core.Program, r *core.Report) {
 	})
 	r.Min("bundle hand-ups in TransferManager.handle", 1)
 	r.Count("bundle hand-ups in TransferManager.handle", nUp)
+	// the acknowledgement of the END segment is what makes the peer's Send return success: it is emitted only once the
+	// transfer's data was accepted as a bundle (the decoder also validates, e.g. the lifetime against this node's
+	// clock); an unacceptable transfer is answered by a refusal
+	nAck := 0
+	var acks []*ssa.Send
+	core.EachInstr(h, func(in ssa.Instruction) {
+		snd, ok := in.(*ssa.Send)
+		if !ok || !pathEndsWith(snd.Chan, "msgOut") {
+			return
+		}
+		isAck := core.DependsOn(snd.X, func(v ssa.Value) bool {
+			c, ok := v.(*ssa.Call)
+			return ok && core.NameIs(core.CalleeName(c), utilsPkg+".IncomingTransfer.NextSegment")
+		})
+		if !isAck {
+			return
+		}
+		nAck++
+		acks = append(acks, snd)
+		conds := core.DominatingConds(snd.Block())
+		_, notFin := callGuard(conds, utilsPkg+".IncomingTransfer.IsFinished", false)
+		okB := false
+		for _, tb := range core.CallsTo(h, utilsPkg+".IncomingTransfer.ToBundle") {
+			if errNilGuard(conds, tb.(ssa.Value)) {
+				okB = true
+			}
+		}
+		r.Check(notFin || okB, "receiver/"+fname(h)+"/ack-after-acceptance", "a segment's acknowledgement is sent either for a transfer that is not finished yet or after the finished transfer's data was accepted as a bundle (ToBundle()==nil): the sender's success stands for a bundle the receiver took", p.Pos(snd.Pos()), "", "the END segment is acknowledged before / regardless of ToBundle(): the peer's Send returns success for a bundle this node then drops (e.g. lifetime ended in transit by this node's clock); "+condStrings(conds))
+	})
+	r.Min("segment acknowledgements in TransferManager.handle", 1)
+	r.Count("segment acknowledgements in TransferManager.handle", nAck)
+	for _, tb := range core.CallsTo(h, utilsPkg+".IncomingTransfer.ToBundle") {
+		// on ToBundle()!=nil a refusal goes out
+		okRef := false
+		core.EachInstr(h, func(in ssa.Instruction) {
+			snd, ok := in.(*ssa.Send)
+			if !ok || !pathEndsWith(snd.Chan, "msgOut") {
+				return
+			}
+			isRef := core.DependsOn(snd.X, func(v ssa.Value) bool {
+				c, ok := v.(*ssa.Call)
+				return ok && core.NameIs(core.CalleeName(c), msgsPkg+".NewTransferRefusalMessage")
+			})
+			if isRef && errNonNilGuard(core.DominatingConds(snd.Block()), tb.(ssa.Value)) {
+				okRef = true
+			}
+		})
+		r.Check(okRef, "receiver/"+fname(h)+"/refuses-unacceptable", "a finished transfer whose data is not an acceptable bundle is answered with XFER_REFUSE, so that the peer's Send fails for exactly this bundle", p.Pos(tb.Pos()), "", "no refusal is sent on the ToBundle()!=nil branch")
+	}
 	in := p.Func(utilsPkg, "IncomingTransfer", "NextSegment")
 	for _, w := range core.CallsTo(in, "bytes.Buffer.Write") {
 		conds := core.DominatingConds(w.Block())
